@@ -142,7 +142,8 @@ def mutate_attr(
 
     # Invalidate any caches depending on this attribute
     if not skip_invalidation and metadata and metadata.invalidation_map:
-        invalidate_attrs(obj, attr, metadata.invalidation_map)
+        with _unfrozen(obj, enabled=not inplace):  # if not inplace, `obj` is our own copy
+            invalidate_attrs(obj, attr, metadata.invalidation_map)
 
     return obj
 
@@ -287,7 +288,7 @@ def mutate_value(
         if not mutate_safe:
             value = protect_via_deepcopy(value)
             mutate_safe = True
-        with _rollback_on_error(value):
+        with _rollback_on_error(value), _unfrozen(value, enabled=not inplace):
             for attr, attr_value in attrs.items():
                 if attr in used_attrs:
                     continue
@@ -304,13 +305,37 @@ def mutate_value(
     if attr_transforms:
         if not mutate_safe:
             value = protect_via_deepcopy(value)
-        with _rollback_on_error(value):
+        with _rollback_on_error(value), _unfrozen(value, enabled=not inplace):
             for attr, attr_transform in attr_transforms.items():
                 transformed_value = attr_transform(getattr(value, attr, MISSING))
                 if transformed_value is not MISSING:
                     setattr(value, attr, transformed_value)
 
     return value
+
+
+@contextlib.contextmanager
+def _unfrozen(obj: Any, enabled: bool = True):
+    """
+    Allow writes to `obj` even if it is an instance of a frozen spec-class. This
+    is only ever used by copy-on-write helpers on the fresh copy that they are
+    still building (and have not yet handed back to the user), in the same way
+    that `__init__` is allowed to populate a frozen instance.
+    """
+    state = getattr(obj, "__dict__", None)
+    if (
+        not enabled
+        or not isinstance(state, dict)
+        or not getattr(getattr(obj, "__spec_class__", None), "frozen", False)
+        or "__spec_class_initializing__" in state
+    ):
+        yield
+        return
+    state["__spec_class_initializing__"] = True
+    try:
+        yield
+    finally:
+        state.pop("__spec_class_initializing__", None)
 
 
 @contextlib.contextmanager
